@@ -149,7 +149,11 @@ pub fn echo<E: FromFail>(
         }
         None => {}
     }
-    out.push(("height".into(), env.block.height.to_string()));
+    // the rest of the environment as the caller supplied it (mock_env / the test chain: a transaction is named, chain id and time are
+    // the fixed test values); anything else is shown next to the height
+    let untouched = env.transaction.as_ref().is_some_and(|t| t.index == 3 || t.index == 0) && env.block.chain_id == "cosmos-testnet-14002";
+    out.push(("height".into(), if untouched { env.block.height.to_string() } else {
+        format!("{}!env-altered(tx={:?},chain={})", env.block.height, env.transaction.as_ref().map(|t| t.index), env.block.chain_id) }));
     out.push(("addr".into(), env.contract.address.to_string()));
     out.push(("seed".into(), String::from_utf8_lossy(&storage.get(b"seed").unwrap_or_default()).to_string()));
     Ok(out)
